@@ -12,6 +12,7 @@ import TantivyModel.Proofs.BlockWandInterTotal
 import TantivyModel.Proofs.BlockWandTotalG
 import TantivyModel.Proofs.BlockMaxPair
 import TantivyModel.Proofs.LazyConvert
+import TantivyModel.Proofs.Comparators
 /-!
 # C06 — Top-K collection returns exactly the best K, with deterministic ties
 
@@ -300,6 +301,47 @@ theorem C06_search_lazy_tuple_converted {κ ν : Type} (cmpSeg : κ → κ → O
   rw [mergeTopK_map hconv, C06_search_lazy_tuple cmpSeg hgt K O sel hsel accept hacc segs hseg hnd,
     topK_map (le (gtOf cmpSeg)) (le (gtOf cmp)) (convEntry conv) (le_convEntry hconv)]
 
+/-! ## the comparators of `order.rs`: the hypothesis `StrictWeak` is derived -/
+
+/-- Every comparator `TopDocs` can be given on an optional (fast-field) key — `NaturalComparator`,
+`ReverseComparator`, `ReverseNoneIsLowerComparator`, `NaturalNoneIsHigherComparator`, and what
+`Order::Asc` / `Order::Desc` turn into (`impl From<Order> for ComparatorEnum`) — is a strict weak
+order as soon as the value type's own comparison is one (integers, dates, strings; floats without
+NaN). With `C06_tuple_key_strictWeak` this covers tuples of any nesting: the hypothesis `hgt` of
+the collector theorems is no assumption for these key types. The shapes of the four `compare`
+functions and of the `From<Order>` impl are checked by the extractor (`Gen.COMPARATOR_SHAPE`). -/
+theorem C06_comparators_strictWeak {τ : Type} (c : τ → τ → Ordering) (h : StrictWeak (gtOf c)) :
+    StrictWeak (gtOf (natOpt c)) ∧ StrictWeak (gtOf (revOpt c)) ∧ StrictWeak (gtOf (revNoneLower c)) ∧
+      StrictWeak (gtOf (natNoneHigher c)) ∧ ∀ asc, StrictWeak (gtOf (ofOrder asc c)) :=
+  ⟨natOpt_strictWeak h, revOpt_strictWeak h, revNoneLower_strictWeak h, natNoneHigher_strictWeak h,
+    ofOrder_strictWeak h⟩
+
+/-- `None` is last in both directions: ascending `[Some 1, Some 2, None]`, descending `[Some 2, Some 1, None]` -/
+example : isort (le (gtOf (ofOrder true (fun a b : Nat => compare a b)))) [⟨none, 0⟩, ⟨some 2, 1⟩, ⟨some 1, 2⟩]
+    = [⟨some 1, 2⟩, ⟨some 2, 1⟩, ⟨none, 0⟩] := by decide
+example : isort (le (gtOf (ofOrder false (fun a b : Nat => compare a b)))) [⟨none, 0⟩, ⟨some 1, 1⟩, ⟨some 2, 2⟩]
+    = [⟨some 2, 2⟩, ⟨some 1, 1⟩, ⟨none, 0⟩] := by decide
+
+/-- … and a PAIR of fast-field keys with an order each is a strict weak order as well (the head's
+swap law holds for these comparators), so the same goes for tuples -/
+theorem C06_pair_of_orders_strictWeak (a₁ a₂ : Bool) :
+    StrictWeak (gtOf (lexCmp (ofOrder a₁ (fun a b : Nat => compare a b)) (ofOrder a₂ (fun a b : Nat => compare a b)))) := by
+  have hfun : gtOf (lexCmp (ofOrder a₁ (fun a b : Nat => compare a b)) (ofOrder a₂ (fun a b : Nat => compare a b)))
+      = lexGt (gtOf (ofOrder a₁ (fun a b : Nat => compare a b))) (gtOf (ofOrder a₂ (fun a b : Nat => compare a b))) := by
+    funext x y
+    exact gtOf_lexCmp _ _ (fun a b => ofOrder_nat_swap a₁ a b) x y
+  rw [hfun]
+  exact (ofOrder_strictWeak natCompare_strictWeak a₁).lex (ofOrder_strictWeak natCompare_strictWeak a₂)
+
+/-- the 4-tuple adapter's map `|(a, (b, (c, d)))| (a, b, c, d)` carries the chain comparator to the
+4-tuple comparator of `order.rs` -/
+theorem C06_tuple4_adapter_order {α₁ α₂ α₃ α₄ : Type} (c₁ : α₁ → α₁ → Ordering) (c₂ : α₂ → α₂ → Ordering)
+    (c₃ : α₃ → α₃ → Ordering) (c₄ : α₄ → α₄ → Ordering) :
+    OrderEmb (lexCmp c₁ (lexCmp c₂ (lexCmp c₃ c₄)))
+      (fun x y : α₁ × α₂ × α₃ × α₄ => (c₁ x.1 y.1).then ((c₂ x.2.1 y.2.1).then ((c₃ x.2.2.1 y.2.2.1).then (c₄ x.2.2.2 y.2.2.2))))
+      (fun k : α₁ × (α₂ × (α₃ × α₄)) => (k.1, k.2.1, k.2.2.1, k.2.2.2)) := by
+  intro a b; rfl
+
 /-- associativity of the merge: the best N of a union only depend on the best N of each part,
 whatever the grouping (segments, threads). -/
 theorem C06_merge_any_grouping (gt : α → α → Bool) (hgt : StrictWeak gt) (N : Nat)
@@ -351,6 +393,17 @@ theorem C06_search (gt : α → α → Bool) (hgt : StrictWeak gt) (K O : Nat)
     exact ⟨by rw [h1, take_take]; simp, h2, h3⟩
   exact C06_merge_offset gt hgt K O _ segs (hall.imp fun _ _ h => h.1)
     (addrNodup_flatten_of_sub (hall.imp fun _ _ h => h.2) hnd) hnd
+
+/-- `TopDocs::order_by_fast_field(field, order)` on a `u64` field, end to end, with NO hypothesis on
+the comparator left: per-segment `TopNComputer`, `merge_top_k`, offset = entries `O .. O+K` of the
+global order `(value asc/desc, None last, address asc)`. -/
+theorem C06_search_fast_field_order (asc : Bool) (K O : Nat)
+    (sel : List (Entry (Option Nat)) → List (Entry (Option Nat)))
+    (hsel : SelectNth (gtOf (ofOrder asc (fun a b : Nat => compare a b))) (O + K) sel)
+    (segs : List (List (Entry (Option Nat)))) (hseg : ∀ d, d ∈ segs → AddrAsc d) (hnd : AddrNodup segs.flatten) :
+    search (gtOf (ofOrder asc (fun a b : Nat => compare a b))) sel K O segs
+      = topK (le (gtOf (ofOrder asc (fun a b : Nat => compare a b)))) K O segs.flatten :=
+  C06_search _ (ofOrder_strictWeak natCompare_strictWeak asc) K O sel hsel segs hseg hnd
 
 /-- the live documents of a segment, as entries -/
 def aliveEntries (cs : List (Cand α × Bool)) : List (Entry α) :=
